@@ -186,9 +186,12 @@ def compare(case, present, events):
         d = []
         if o['via'] == 'error':
             d.append((vkey(case, mk[1], mk[0], 'raised'), f"{mk[0]} over {mk[1]}: {o['path']}"))
+        elif o['via'] != p['via']:      # the API's own RPC was reached instead of the mixin, or the other way round
+            d.append((vkey(case, mk[1], mk[0], 'own-rpc'),
+                      f"{mk[0]} over {mk[1]}: reached {o['via']} ({o['path']}), predicted {p['via']} ({p['path']})"))
         else:
             seen = set()
-            for f in CALL_FIELDS[2:]:
+            for f in CALL_FIELDS[3:]:
                 if o[f] != p[f] and ASPECT[f] not in seen:
                     seen.add(ASPECT[f])
                     d.append((vkey(case, mk[1], mk[0], ASPECT[f]),
@@ -208,8 +211,8 @@ def trace_cfg(case):
 
 def pick_quick(keys, by_key, rnd, n=36):
     """fixed corners + a seeded sample."""
-    def find(pred):
-        return next(k for k in keys if pred(by_key[k][0]))
+    def find(pred, tmpl='default'):
+        return next(k for k in keys if by_key[k][0]['tmpl'] == tmpl and pred(by_key[k][0]))
     full = lambda c, v: all(x == v for x in c['rulecode'].values())
     corners = [
         find(lambda c: len(c['apis']) == 3 and full(c, 1) and not c['own'] and not c['legacy'] and c['transports'] == ['grpc', 'rest']),
@@ -220,6 +223,8 @@ def pick_quick(keys, by_key, rnd, n=36):
         find(lambda c: len(c['apis']) == 0 and full(c, 1) and not c['own'] and not c['legacy'] and c['transports'] == ['grpc', 'rest']),
         find(lambda c: len(c['apis']) == 3 and full(c, 0) and not c['own'] and not c['legacy'] and c['transports'] == ['grpc', 'rest']),
         find(lambda c: len(c['apis']) == 3 and full(c, 1) and not c['own'] and not c['legacy'] and c['transports'] == ['rest']),
+        find(lambda c: len(c['apis']) == 3 and full(c, 1) and not c['own'] and not c['legacy'] and c['transports'] == ['grpc', 'rest'],
+             tmpl='ads'),
     ]
     rest = [k for k in keys if k not in corners]
     return corners + rnd.sample(rest, max(0, n - len(corners)))
@@ -228,21 +233,25 @@ def pick_quick(keys, by_key, rnd, n=36):
 def main(chk, args):
     quick = chk.tier == 'quick'
     rnd = random.Random(chk.seed)
-    # 1. the specification satisfies the property within the bounds; the mutants do not
-    r = tlc.run('Mixins', 'Mixins.small.cfg' if quick else 'Mixins.full.cfg', deadlock=False, timeout=1500)
-    chk.add_tlc(r, 'Mixins model check')
+    # 1. the specification satisfies the property within the bounds; the mutants do not.  2. cases.  (run side by side)
     base_cfg = open(os.path.join(tlc.SPEC, 'Mixins.small.cfg')).read()
     muts = [MUTANTS[(chk.seed + i * 4) % len(MUTANTS)] for i in range(3)] if quick else MUTANTS
 
     def run_mutant(m):
-        return m, tlc.run('Mixins', base_cfg.replace('Mutant = "none"', f'Mutant = "{m}"'), deadlock=False, workers=2, timeout=600)
-    with ThreadPoolExecutor(4) as ex:
-        for m, rm in ex.map(run_mutant, muts):
+        return tlc.run('Mixins', base_cfg.replace('Mutant = "none"', f'Mutant = "{m}"'), deadlock=False, workers=2, timeout=600)
+    with ThreadPoolExecutor(6) as ex:
+        f_model = ex.submit(tlc.run, 'Mixins', 'Mixins.small.cfg' if quick else 'Mixins.full.cfg', deadlock=False,
+                            workers=4 if quick else 16, timeout=1500)
+        f_emit = ex.submit(tlc.emit_cases, 'Mixins', 'Mixins.emit.quick.cfg' if quick else 'Mixins.emit.thorough.cfg',
+                           deadlock=False, timeout=1500)
+        f_muts = [(m, ex.submit(run_mutant, m)) for m in muts]
+        chk.add_tlc(f_model.result(), 'Mixins model check')
+        for m, f in f_muts:
+            rm = f.result()
             chk.tlc_runs.append(dict(label=f'spec mutant {m} (must be rejected)', **rm.summary()))
             if rm.ok or not (rm.violated or '').startswith('Inv_'):
                 raise core.MachineryError(f'spec mutant {m} was not rejected by an invariant: violated={rm.violated}')
-    # 2. cases
-    cases, r2 = tlc.emit_cases('Mixins', 'Mixins.emit.quick.cfg' if quick else 'Mixins.emit.thorough.cfg', deadlock=False, timeout=1500)
+        cases, r2 = f_emit.result()
     chk.add_tlc(r2, 'Mixins case emission')
     if not cases:
         raise core.MachineryError('no cases emitted')
@@ -359,7 +368,7 @@ def main(chk, args):
         'add-iam-methods is not generated (the two clauses of the property contradict each other there)',
         'with add-iam-methods the IAM methods have no http rule: REST calls of them are outside the property',
         'http rules have a single binding with body "*" or no body; rule sets form an orthogonal array of strength 2 over '
-        '{absent, rule 1, rule 2}^10 plus all-on (thorough); quick = 8 corners + seeded sample',
+        '{absent, rule 1, rule 2}^10 plus all-on (thorough); quick = 9 fixed corners (one of them Ads) + seeded sample',
         'the Ads template set and REST-only libraries have no asyncio client: the property is read over the clients that exist',
     ]
     chk.extra['configurations'] = len(keys)
